@@ -1,6 +1,6 @@
 (* C19 - pools: never more than the limit held, every queued caller eventually served. *)
 From Coq Require Import ZArith List Bool.
-From GCL Require Import Model.Waiters Proofs.WaitersProofs.
+From GCL Require Import Model.Waiters Proofs.WaitersProofs Proofs.WaitersDrain.
 From GCL Require Proofs.TablesOk.
 Import ListNotations.
 Open Scope Z_scope.
@@ -33,3 +33,15 @@ Theorem C19_served_partial s i c pref : w_kind (ws_cfg s) = KQueue -> nth_error 
             forall k, is_blocked s1 k -> if w_fifo (ws_cfg s) then (j <= k)%nat else (k <= j)%nat.
 Proof. exact (release_queue_serves s i c pref). Qed.
 Print Assumptions C19_served_partial.
+
+(* ... and for every pool ordering (queue FIFO / LIFO and the random-order blocking pool alike): a release by a holder while callers are blocked serves
+   at least one of them in the same operation, so a run of n releases leaves at most max(0, blocked - n) callers waiting - every queued caller is served
+   once the holders ahead of it have released (settled executions; the race windows inside one Acquire are known findings F8 / F9) *)
+Theorem C19_release_serves_one s i c pref : nth_error (ws_callers s) i = Some c -> c_st c = 1 -> within s -> 0 < nblocked s ->
+  nblocked (release s i pref) <= nblocked s - 1.
+Proof. exact (release_serves_one s i c pref). Qed.
+Print Assumptions C19_release_serves_one.
+
+Theorem C19_releases_drain l s s' : within s -> releases s l = Some s' -> nblocked s' <= Z.max 0 (nblocked s - Z.of_nat (length l)).
+Proof. exact (releases_drain l s s'). Qed.
+Print Assumptions C19_releases_drain.
